@@ -559,3 +559,56 @@ func allPathsPass(fn *ssa.Function, pred func(ssa.Instruction) bool) (bool, stri
 	}
 	return false, strings.Join(bad, " → ") + " → return"
 }
+
+// pathsFromPass: every path from just after instruction start to a return of
+// its function executes an instruction satisfying pred.
+func pathsFromPass(start ssa.Instruction, pred func(ssa.Instruction) bool) (bool, string) {
+	b0 := start.Block()
+	after := false
+	for _, in := range b0.Instrs {
+		if in == start {
+			after = true
+			continue
+		}
+		if !after {
+			continue
+		}
+		if pred(in) {
+			return true, ""
+		}
+		if _, isRet := in.(*ssa.Return); isRet {
+			return false, "block " + itoa(b0.Index) + " → return"
+		}
+	}
+	seen := map[*ssa.BasicBlock]bool{}
+	var bad []string
+	var rec func(b *ssa.BasicBlock, path []string) bool
+	rec = func(b *ssa.BasicBlock, path []string) bool {
+		if seen[b] {
+			return true
+		}
+		seen[b] = true
+		path = append(path, "block "+itoa(b.Index))
+		for _, in := range b.Instrs {
+			if pred(in) {
+				return true
+			}
+			if _, isRet := in.(*ssa.Return); isRet {
+				bad = path
+				return false
+			}
+		}
+		for _, s := range b.Succs {
+			if !rec(s, path) {
+				return false
+			}
+		}
+		return true
+	}
+	for _, s := range b0.Succs {
+		if !rec(s, []string{"block " + itoa(b0.Index)}) {
+			return false, strings.Join(bad, " → ") + " → return"
+		}
+	}
+	return true, ""
+}
